@@ -191,7 +191,13 @@ pub trait ByteReader {
         Self: Sized,
         D: Deserializable,
     {
-        let mut result = Vec::with_capacity(num_elements);
+        // `num_elements` frequently comes from the source itself; do not reserve memory for more
+        // elements than a modest buffer holds before any of them has been read (the vector grows
+        // as elements arrive, and reading fails as soon as the source runs out of bytes)
+        const MAX_PREALLOCATED_BYTES: usize = 1 << 16;
+        let element_size = core::cmp::max(core::mem::size_of::<D>(), 1);
+        let mut result =
+            Vec::with_capacity(core::cmp::min(num_elements, MAX_PREALLOCATED_BYTES / element_size));
         for _ in 0..num_elements {
             let element = D::read_from(self)?;
             result.push(element)
